@@ -15,7 +15,8 @@
 // Only arguments inside the documented domain are generated (F::dom): lrint/llrint only where the rounded value fits,
 // bit_ceil only where the result is representable, div_sat y != 0, gcd/lcm |m|,|n|,lcm representable, *_bit pos < digits.
 // etl::memchr/memcmp are `inline`, not constexpr, on this tree: not part of the check (char_traits::find/compare, which
-// share their loops and are constexpr, are).  Long double overloads are not instantiated (see the report).
+// share their loops and are constexpr, are).  Long double overloads: arguments hi + lo of two doubles, result compared
+// through an exact (double, remainder) digest; the extended exponent range is not visited.
 //
 // Case string: "function|0xARG0,0xARG1,0xARG2" (bit patterns; strings packed little-endian, NUL-terminated, in one word).
 #include <etl/algorithm.hpp>
@@ -61,6 +62,8 @@ struct Ch { using type = int; };                       // int holding a characte
 struct Str { using type = u64; };                      // packed C string (<= 7 chars)
 struct Cnt { using type = std::size_t; };              // size_t count
 struct Seed { using type = u64; };                     // scenario seed
+struct LD { using type = long double; };               // long double given as the bits of a double (hi) ...
+struct LDlo { using type = double; };                  // ... plus the bits of a second double (lo): value = hi + lo, exact
 template <typename T>
 struct arg_type { using type = T; };
 template <typename T>
@@ -79,12 +82,16 @@ constexpr auto as(u64 b) -> arg_t<T>
         return std::bit_cast<float>(static_cast<u32>(b));
     } else if constexpr (std::is_same_v<R, double>) {
         return std::bit_cast<double>(b);
+    } else if constexpr (std::is_same_v<R, long double>) {
+        return static_cast<long double>(std::bit_cast<double>(b));
     } else if constexpr (std::is_same_v<R, bool>) {
         return b != 0;
     } else {
         return static_cast<R>(b); // integral: modular
     }
 }
+// hi + lo without an invalid operation (lo is 0 whenever hi is not finite)
+constexpr auto ld(long double hi, double lo) -> long double { return lo == 0 ? hi : hi + static_cast<long double>(lo); }
 template <typename T>
 constexpr auto res(T v) -> u64
 {
@@ -92,6 +99,14 @@ constexpr auto res(T v) -> u64
         return v != v ? u64{0x7fc00000U} : u64{std::bit_cast<u32>(v)};
     } else if constexpr (std::is_same_v<T, double>) {
         return v != v ? u64{0x7ff8000000000000ULL} : std::bit_cast<u64>(v);
+    } else if constexpr (std::is_same_v<T, long double>) {
+        // digest of the 80-bit value: (double)v and the exact remainder v - (double)v; injective for |v| <= DBL_MAX whose
+        // remainder is a double (all results of the tables), never a false alarm elsewhere (equal values, equal digests)
+        if (v != v) { return 0x7ff8000000000000ULL; }
+        auto const hi = static_cast<double>(v);
+        if (hi > DBL_MAX || hi < -DBL_MAX) { return std::bit_cast<u64>(hi); }
+        auto const lo = static_cast<double>(v - static_cast<long double>(hi));
+        return std::bit_cast<u64>(hi) ^ (std::bit_cast<u64>(lo) * 0x9E3779B97F4A7C15ULL);
     } else if constexpr (std::is_same_v<T, bool>) {
         return v ? 1U : 0U;
     } else {
@@ -127,14 +142,17 @@ auto classify_arg(u64 b) -> unsigned
     using R = arg_t<T>;
     if constexpr (std::is_same_v<T, None> || std::is_same_v<T, Seed>) {
         return 0;
+    } else if constexpr (std::is_same_v<T, LDlo>) {
+        auto const lo = std::bit_cast<double>(b);
+        return (lo == 0.5 || lo == -0.5) ? (kFloat | kTie | kBig) : 0U; // n + .5 with n beyond the double range of ties
     } else if constexpr (std::is_floating_point_v<R>) {
         auto const x      = static_cast<double>(as<T>(b));
-        constexpr auto lim = std::is_same_v<R, float> ? 8388608.0 : 4503599627370496.0;
+        constexpr auto lim = std::is_same_v<R, float> ? 8388608.0 : std::is_same_v<R, long double> ? 9223372036854775808.0 : 4503599627370496.0;
         unsigned c        = kFloat;
         if (x != x || x == HUGE_VAL || x == -HUGE_VAL) { return c | kInfNan; }
         if (x == 0) { return c | kZero; }
         auto const ax = x < 0 ? -x : x;
-        if (ax < (std::is_same_v<R, float> ? static_cast<double>(FLT_MIN) : DBL_MIN)) { return c | kDenormal; }
+        if (ax < (std::is_same_v<R, float> ? static_cast<double>(FLT_MIN) : DBL_MIN)) { return c | kDenormal; } // (denormal as a double for long double)
         if (ax >= lim) { return c | kBig; }
         auto const fl = __builtin_floor(ax);
         if (ax - fl == 0.5) { c |= kTie; }
@@ -171,6 +189,9 @@ auto show_arg(u64 b) -> std::string
     } else if constexpr (std::is_same_v<R, double>) {
         std::snprintf(buf, sizeof buf, "0x%016llx=%a", static_cast<unsigned long long>(b), as<T>(b));
         return buf;
+    } else if constexpr (std::is_same_v<R, long double>) {
+        std::snprintf(buf, sizeof buf, "0x%016llx=%aL", static_cast<unsigned long long>(b), std::bit_cast<double>(b));
+        return buf;
     } else if constexpr (std::is_same_v<T, Str>) {
         std::string s = "\"";
         for (int i = 0; i < 8; ++i) {
@@ -201,6 +222,8 @@ auto show_result(u64 r) -> std::string
     char buf[96];
     if constexpr (std::is_same_v<R, float>) {
         std::snprintf(buf, sizeof buf, "0x%08llx (%a)", static_cast<unsigned long long>(r), static_cast<double>(std::bit_cast<float>(static_cast<u32>(r))));
+    } else if constexpr (std::is_same_v<R, long double>) {
+        std::snprintf(buf, sizeof buf, "digest 0x%016llx", static_cast<unsigned long long>(r));
     } else if constexpr (std::is_same_v<R, double>) {
         std::snprintf(buf, sizeof buf, "0x%016llx (%a)", static_cast<unsigned long long>(r), std::bit_cast<double>(r));
     } else if constexpr (std::is_same_v<R, bool>) {
@@ -420,15 +443,27 @@ constexpr auto pos_zero(T v) -> bool { return v == 0 && !neg_zero(v); }
 #if defined(C13_PART_CM64) || defined(C13_PART_CM32)
 // Known deviations of the pinned tree (DESIGN 6 / row C13), each an exclusion class that is active only when bin/check
 // passes the tag (i.e. a matching open entry exists in known_findings.json and its probe still reproduces):
-//   cmath.signbit.ct_poszero   signbit(+0.0) is true in a constant expression
+//   cmath.signbit.ct_poszero_negnan  signbit(+0.0) is true and signbit(-NaN) is false in a constant expression
 //   cmath.copysign.ct_zero_nan copysign(x, y) with x or y a zero or a NaN ignores the sign bit in a constant expression
 //   cmath.rint.ct_truncates    rint/lrint/llrint truncate in a constant expression (any non-integral argument, -0.0) and
 //                              rint is not constant-evaluable for NaN, infinities and |x| >= 2^63
 //   cmath.round.ct_huge        floor/ceil/trunc/round (and fmod through trunc(x/y)) are not constant expressions once the
 //                              value does not fit long long
+//   cmath.round.ct_tiny        floor/trunc/round return x itself for 0 < |x| < epsilon in a constant expression
+//   cmath.fdim.ct_inf_minus_inf  fdim(inf, inf) computes inf - inf: not a constant expression
+//   cmath.fmod.ct_quotient_overflow  fmod is x - trunc(x/y)*y: not a constant expression when x/y (or the product) overflows
 //   cmath.trunc.ct_negzero     trunc(x), -1 < x < 0, is +0.0 in a constant expression and -0.0 at run time
 //   cmath.fma.ct_unfused       fma is x*y+z with two roundings in a constant expression
-    #define C13_HUGE(v) ((is_fin(v) && !fits_ll(v)) ? "cmath.round.ct_huge" : kNoTag)
+    #define C13_HUGE(v) ((is_fin(v) && !fits_ll(v)) ? "cmath.round.ct_huge" : (v != 0 && mag(v) < std::numeric_limits<decltype(v)>::epsilon()) ? "cmath.round.ct_tiny" : kNoTag)
+template <typename T>
+constexpr auto neg_nan(T v) -> bool
+{
+    if constexpr (sizeof(T) == 4) {
+        return is_nan(v) && (std::bit_cast<u32>(v) >> 31U) != 0;
+    } else {
+        return is_nan(v) && (std::bit_cast<u64>(v) >> 63U) != 0;
+    }
+}
 constexpr auto fused(float x, float y, float z) -> float { return __builtin_fmaf(x, y, z); }
 constexpr auto fused(double x, double y, double z) -> double { return __builtin_fma(x, y, z); }
 // IEEE exceptional operations (overflow of a finite result = C "range error"; invalid operation / division by zero =
@@ -490,13 +525,13 @@ auto fmod_excl(T x, T y) -> char const*
 }
     #define C13_CMATH(S, T)                                                                                                                      \
         C13_FN1(floor_##S, "floor." #S, "cmath", T, true, C13_HUGE(x), etl::floor(x))                                                            \
-        C13_FN1(ceil_##S, "ceil." #S, "cmath", T, true, C13_HUGE(x), etl::ceil(x))                                                               \
+        C13_FN1(ceil_##S, "ceil." #S, "cmath", T, true, ((is_fin(x) && !fits_ll(x)) ? "cmath.round.ct_huge" : kNoTag), etl::ceil(x))                                                               \
         C13_FN1(trunc_##S, "trunc." #S, "cmath", T, true, (C13_HUGE(x) != kNoTag ? C13_HUGE(x) : (x < 0 && x > -1) ? "cmath.trunc.ct_negzero" : kNoTag), etl::trunc(x)) \
-        C13_FN1(round_##S, "round." #S, "cmath", T, true, C13_HUGE(x), etl::round(x))                                                            \
+        C13_FN1(round_##S, "round." #S, "cmath", T, true, ((is_fin(x) && mag(x) >= T(9223372036854775808.0)) ? "cmath.round.ct_huge" : C13_HUGE(x)), etl::round(x))                                                            \
         C13_FN1(rint_##S, "rint." #S, "cmath", T, true, ((!is_integral_value(x) || neg_zero(x)) ? "cmath.rint.ct_truncates" : kNoTag), etl::rint(x)) \
         C13_FN1(lrint_##S, "lrint." #S, "cmath", T, fits_ll(x), (!is_integral_value(x) ? "cmath.rint.ct_truncates" : kNoTag), etl::lrint(x))      \
         C13_FN1(llrint_##S, "llrint." #S, "cmath", T, fits_ll(x), (!is_integral_value(x) ? "cmath.rint.ct_truncates" : kNoTag), etl::llrint(x))   \
-        C13_FN1(signbit_##S, "signbit." #S, "cmath", T, true, (pos_zero(x) ? "cmath.signbit.ct_poszero" : kNoTag), etl::signbit(x))             \
+        C13_FN1(signbit_##S, "signbit." #S, "cmath", T, true, ((pos_zero(x) || neg_nan(x)) ? "cmath.signbit.ct_poszero_negnan" : kNoTag), etl::signbit(x))             \
         C13_FN1(fabs_##S, "fabs." #S, "cmath", T, true, kNoTag, etl::fabs(x))                                                                    \
         C13_FN1(abs_##S, "abs." #S, "cmath", T, true, kNoTag, etl::abs(x))                                                                       \
         C13_FN1(isnan_##S, "isnan." #S, "cmath", T, true, kNoTag, etl::isnan(x))                                                                 \
@@ -517,6 +552,36 @@ C13_CMATH(f64, double)
 #endif
 #if defined(C13_PART_CM32)
 C13_CMATH(f32, float)
+    #define C13_HAVE_PART 1
+#endif
+
+// ================================================================== cmath, long double overloads
+#if defined(C13_PART_CMLD)
+// Arguments: (hi, lo) pairs of doubles, value hi + lo exactly (every double; n + .5 and n +- 1 beyond 2^53; not the
+// extended exponent range).  rint/lrint/llrint/signbit have a builtin run-time path, the other overloads one path.
+using ldbl = long double;
+constexpr auto ld_fits_ll(ldbl v) -> bool { return v == v && v >= -9223372036854775808.0L && v < 9223372036854775808.0L; }
+constexpr auto ld_integral(ldbl v) -> bool { return ld_fits_ll(v) && static_cast<ldbl>(static_cast<long long>(v)) == v; }
+constexpr auto ld_fin(ldbl v) -> bool { return v == v && v <= LDBL_MAX && v >= -LDBL_MAX; }
+constexpr auto ld_huge(ldbl v) -> char const* { return (ld_fin(v) && !(v > -9223372036854775808.0L && v < 9223372036854775808.0L)) ? "cmath.round.ct_huge" : (v != 0 && (v < 0 ? -v : v) < LDBL_EPSILON) ? "cmath.round.ct_tiny" : kNoTag; }
+constexpr auto ld_negzero(ldbl v) -> bool { return v == 0 && __builtin_signbit(v); }
+    #define C13_LD1(F, DOM, EXCL) C13_FN2(F##_ld, #F ".ld", "cmath", LD, LDlo, DOM, EXCL, etl::F(ld(x, y)))
+C13_LD1(floor, true, ld_huge(ld(x, y)))
+C13_LD1(ceil, true, ((ld_huge(ld(x, y)) != kNoTag && ld(x, y) != 0 && !((ld(x, y) < 0 ? -ld(x, y) : ld(x, y)) < LDBL_EPSILON)) ? "cmath.round.ct_huge" : kNoTag))
+C13_LD1(trunc, true, (ld_huge(ld(x, y)) != kNoTag ? ld_huge(ld(x, y)) : (ld(x, y) < 0 && ld(x, y) > -1) ? "cmath.trunc.ct_negzero" : kNoTag))
+C13_LD1(round, true, ld_huge(ld(x, y)))
+C13_LD1(rint, true, ((!ld_integral(ld(x, y)) || ld_negzero(ld(x, y))) ? "cmath.rint.ct_truncates" : kNoTag))
+C13_LD1(lrint, ld_fits_ll(ld(x, y)), (!ld_integral(ld(x, y)) ? "cmath.rint.ct_truncates" : kNoTag))
+C13_LD1(llrint, ld_fits_ll(ld(x, y)), (!ld_integral(ld(x, y)) ? "cmath.rint.ct_truncates" : kNoTag))
+C13_LD1(signbit, true, (((x == 0 || x != x) && __builtin_signbit(x) == (x != x)) ? "cmath.signbit.ct_poszero_negnan" : kNoTag))
+C13_LD1(fabs, true, kNoTag)
+C13_LD1(abs, true, kNoTag)
+C13_LD1(isnan, true, kNoTag)
+C13_LD1(isinf, true, kNoTag)
+C13_LD1(isfinite, true, kNoTag)
+C13_FN2(copysign_ld, "copysign.ld", "cmath", LD, LD, true, ((x == 0 || y == 0 || x != x || y != y) ? "cmath.copysign.ct_zero_nan" : kNoTag), etl::copysign(x, y))
+C13_FN2(fmin_ld, "fmin.ld", "cmath", LD, LD, true, kNoTag, etl::fmin(x, y))
+C13_FN2(fmax_ld, "fmax.ld", "cmath", LD, LD, true, kNoTag, etl::fmax(x, y))
     #define C13_HAVE_PART 1
 #endif
 
@@ -1122,6 +1187,8 @@ C13_SCEN(array_bitset)
     #include "C13_gen_cm64.hpp"
 #elif defined(C13_PART_CM32)
     #include "C13_gen_cm32.hpp"
+#elif defined(C13_PART_CMLD)
+    #include "C13_gen_cmld.hpp"
 #elif defined(C13_PART_INT8)
     #include "C13_gen_int8.hpp"
 #elif defined(C13_PART_NUM8)
@@ -1135,7 +1202,7 @@ C13_SCEN(array_bitset)
 #elif defined(C13_PART_SCEN)
     #include "C13_gen_scen.hpp"
 #else
-    #error "compile with -DC13_PART_<CM64|CM32|INT8|NUM8|W1632|W64|CSTR|SCEN>"
+    #error "compile with -DC13_PART_<CM64|CM32|CMLD|INT8|NUM8|W1632|W64|CSTR|SCEN>"
 #endif
 
 namespace c13 {
